@@ -21,6 +21,7 @@ type ExecMode struct {
 	ArgFaults bool // failing / panicking input unmarshaler in arguments
 	HTTP      bool // run through handler.Server + POST transport; allows marshal-time panics (Boom = "panic")
 	Mutations bool // include mutation operations
+	Subs      bool // subscription operations only (GqlSubTrace)
 	Defer     bool // @defer in operations (C13 uses its own trace module)
 	Module    string
 	Config    string
@@ -75,6 +76,17 @@ func derivePlan(s *SchemaJ, base *ur.Result, r *rand.Rand, m ExecMode, intensity
 			kinds, basen = desc[:i], desc[i+1:]
 		}
 		if strings.HasPrefix(kinds, "C") {
+			// subscription source: number of events and per-event outcomes
+			n := 1 + r.Intn(3)
+			plan[ev.P] = ur.Outcome{K: "stream", N: n}
+			for i := 0; i < n; i++ {
+				ep := fmt.Sprintf("%s~%d", ev.P, i)
+				if len(kinds) > 1 && r.Intn(100) < intensity {
+					plan[ep] = ur.Outcome{K: "null"}
+					continue
+				}
+				plainFields(s, plan, ep, gqlName(s, basen), r, intensity, 1)
+			}
 			continue
 		}
 		if pick() {
@@ -313,6 +325,9 @@ func ExecConformance(c *Check, prop string, bins map[string]string, vs []Variant
 		kind := "query"
 		if m.Mutations && i%4 == 3 {
 			kind = "mutation"
+		}
+		if m.Subs {
+			kind = "subscription"
 		}
 		op := GenOp(schema, r, GenOpts{Depth: 1 + r.Intn(3), MaxFields: 2 + r.Intn(4), Skip: true, Frags: true, Kind: kind, ArgFaults: m.ArgFaults, QDirs: true,
 			Defer: m.Defer, Avoid: []string{"withArgs", "argd", "arg", "mat"}})
